@@ -223,6 +223,40 @@ def run(tier, seed, model_ok=True):
         res.distinct.add(("stored", R))
         res.count("stored-keys", sum(len(v) for v in seen.values()))
 
+    # ---- two communicators of different size in one process
+    def dot(R):
+        nodes, ppn = factor_layout(R)
+        return R, C.run_sim(binary, ["twocomm", 60 if tier == "quick" else 300, seed], nodes=nodes, ppn=ppn, want_log=False, timeout=300)
+
+    for R, sr in C.pmap(dot, [3, 4, 5] if tier == "quick" else [3, 4, 5, 6, 7, 8]):
+        res.evaluations += 1
+        case = {"ranks": R, "mode": "twocomm"}
+        if sr.verdict != "ok":
+            res.oracle_failures.append({"what": f"two-communicator harness failed: {sr.verdict} {sr.stderr[-200:]}", "signature": "twocomm-run-failed", "case": case})
+            continue
+        seen_any = False
+        for r in range(R):
+            lines = sr.outs.get(r, [])
+            for line in lines:
+                w = line.split()
+                if w[0] == "owners":
+                    for tok in w[1:]:
+                        h, ow, os_, ow2, ssz = [int(x) for x in tok.split(":")]
+                        if ow != h % R or ow2 != h % R or os_ != h % ssz:
+                            res.oracle_failures.append({"what": f"rank {r}: owner of a key differs from hash % size of ITS communicator (world {ow}/{ow2} want {h % R}; sub {os_} want {h % ssz})",
+                                                        "signature": "owner-depends-on-other-communicator", "case": case})
+                            break
+                elif w[0] in ("mapw", "maps"):
+                    toks = line.split("|")[0].split()[1:]
+                    myrank = r if w[0] == "mapw" else int(line.split("|")[1].split()[0])
+                    for tok in toks:
+                        key, own = tok.rsplit(":", 1)
+                        seen_any = True
+                        if int(own) != myrank:
+                            res.oracle_failures.append({"what": f"{w[0]}: key {key} stored on rank {myrank} of its communicator, owner is {own}", "signature": "stored-off-owner twocomm", "case": case})
+        if seen_any:
+            res.distinct.add(("twocomm", R))
+
     # ---- hash owners
     nkeys = 1500 if tier == "quick" else 10000
     sizes = [1, 2, 3, 4, 5, 7, 8] if tier == "quick" else list(range(1, 17))
@@ -271,6 +305,9 @@ def replay(data):
     if case.get("mode") == "resize":
         nodes, ppn = factor_layout(R)
         sr = C.run_sim(binary, ["resize", str(case.get("from", 0)), str(L)], nodes=nodes, ppn=ppn, want_log=False)
+    elif case.get("mode") == "twocomm":
+        nodes, ppn = factor_layout(R)
+        sr = C.run_sim(binary, ["twocomm", 60, data.get("seed", 1)], nodes=nodes, ppn=ppn, want_log=False)
     elif case.get("mode") == "stored":
         nodes, ppn = factor_layout(R)
         sr = C.run_sim(binary, ["stored", 120, data.get("seed", 1)], nodes=nodes, ppn=ppn, want_log=False)
